@@ -416,3 +416,98 @@ Lemma Pres_nth tv k c c' a d d' i :
   Pres tv k c c' -> tv = true \/ total_on c a -> i < length (outputs c) ->
   forall v, Eval c' a (nth i (outputs c') d') v <-> Eval c a (nth i (outputs c) d) v.
 Proof. intros P Ha Hi. eapply out_equiv_nth; [apply (pr_fun _ _ _ _ P a Ha)|exact Hi]. Qed.
+
+(* ---------------- the common tail of MU / MD / ME ---------------- *)
+Lemma set_inputs_exist n ls n' : set_inputs n ls = Ok n' -> forall l, In l ls -> has_gate n l = true.
+Proof. unfold set_inputs; intros H. binv H u Hu. eapply check_gates_exist_unit; eassumption. Qed.
+
+Lemma set_outputs_exist n ls n' : set_outputs n ls = Ok n' -> forall l, In l ls -> has_gate n l = true.
+Proof. unfold set_outputs; intros H. binv H u Hu. eapply check_gates_exist_unit; eassumption. Qed.
+
+Lemma finish_rebuilt c R n1 n2 outs c' :
+  WF n1 -> sim c R n1 -> set_inputs n1 (inputs c) = Ok n2 -> Forall2 R outs (outputs c) ->
+  set_outputs n2 outs = Ok c' ->
+  Rebuilt c R c' /\ inputs c' = inputs c /\ inputs c' = filter (has_gate c') (inputs c) /\
+  gates c' = gates n1.
+Proof.
+  intros W1 S1 H2 Ho H.
+  pose proof (set_inputs_wf _ _ _ W1 H2) as W2. pose proof (set_inputs_exist _ _ _ H2) as Hex.
+  apply set_inputs_spec in H2. subst n2.
+  pose proof (set_outputs_wf _ _ _ W2 H) as W'. apply set_outputs_spec in H. subst c'.
+  split; [constructor|].
+  - exact W'.
+  - eapply sim_gates; [|exact S1]. reflexivity.
+  - exact Ho.
+  - simpl. split; [reflexivity|]. split; [|reflexivity].
+    symmetry. apply filter_true. intros x Hx. apply Hex, Hx.
+Qed.
+
+Lemma set_inputs_total n ls :
+  WF n -> NoDup ls -> (forall i, In i ls <-> In i (inputs n)) -> exists n', set_inputs n ls = Ok n'.
+Proof.
+  intros W Hnd Hiff. unfold set_inputs.
+  assert (Hex : check_gates_exist ls n = Ok tt).
+  { apply check_gates_exist_ok. intros l Hl. apply Hiff, (wf_inputs n W) in Hl.
+    destruct Hl as (g & Hg & _). eapply get_has_gate; eassumption. }
+  rewrite Hex. simpl.
+  assert (Hall : forallb (fun kg => negb (gtype_beq (gtyp (snd kg)) INPUT) || memb (fst kg) ls) (gates n) = true).
+  { apply forallb_forall. intros [l g] Hlg. simpl.
+    destruct (gtype_beq (gtyp g) INPUT) eqn:Et; [simpl|reflexivity]. apply gtype_beq_eq in Et.
+    apply In_dget in Hlg; [|apply (wf_gkeys n W)].
+    apply memb_In, Hiff, (wf_inputs n W). eauto. }
+  rewrite Hall.
+  assert (Hloop : forall rest acc, NoDup (acc ++ rest) -> (forall i, In i rest -> In i (inputs n)) ->
+                  exists r, set_inputs_loop n rest acc = Ok r).
+  { induction rest as [|i rest IH]; intros acc Hnd' Hin; simpl; [eauto|].
+    assert (Hi : In i (inputs n)) by (apply Hin; left; reflexivity).
+    apply (wf_inputs n W) in Hi. destruct Hi as (g & Hg & Ht).
+    unfold get_gate. rewrite Hg. simpl. rewrite Ht. simpl.
+    assert (Hm : memb i acc = false).
+    { apply memb_nIn. intros Hi. apply NoDup_remove_2 in Hnd'. apply Hnd', in_or_app; left; exact Hi. }
+    rewrite Hm. apply IH; [rewrite <- app_assoc; exact Hnd'|intros; apply Hin; right; assumption]. }
+  destruct (Hloop ls []) as [r Hr]; [exact Hnd|intros i Hi; apply Hiff, Hi|].
+  rewrite Hr. simpl. eauto.
+Qed.
+
+Lemma set_outputs_total n ls : (forall l, In l ls -> has_gate n l = true) -> exists n', set_outputs n ls = Ok n'.
+Proof. intros H. unfold set_outputs. apply check_gates_exist_ok in H. rewrite H. simpl. eauto. Qed.
+
+(* gates already present are untouched by an emplace *)
+Lemma emplace_gate_old n l t ops n' d g :
+  emplace_gate n l t ops = Ok n' -> dget (gates n) d = Some g -> dget (gates n') d = Some g.
+Proof.
+  intros H Hd. apply emplace_gate_inv in H. destruct H as (Hl & _ & ->).
+  rewrite emplace_raw_gates, dget_dset. destruct (leqb_spec d l) as [->|]; [|exact Hd].
+  apply get_has_gate in Hd. congruence.
+Qed.
+
+Lemma emplace_gate_new n l t ops n' :
+  emplace_gate n l t ops = Ok n' -> dget (gates n') l = Some (mkGate t ops).
+Proof.
+  intros H. apply emplace_gate_inv in H. destruct H as (_ & _ & ->).
+  rewrite emplace_raw_gates. apply dget_dset_same.
+Qed.
+
+Lemma emplace_gate_total n l t ops :
+  has_gate n l = false -> (forall o, In o ops -> has_gate n o = true) ->
+  exists n', emplace_gate n l t ops = Ok n'.
+Proof.
+  intros Hl Ho. unfold emplace_gate, check_label_doesnt_exist. rewrite Hl. simpl.
+  apply check_gates_exist_ok in Ho. rewrite Ho. simpl. eauto.
+Qed.
+
+Lemma mapM_total {A B} (f : A -> res B) l :
+  (forall x, In x l -> exists y, f x = Ok y) -> exists r, mapM f l = Ok r.
+Proof.
+  induction l as [|x l IH]; intros H; simpl; [eauto|].
+  destruct (H x (or_introl eq_refl)) as [y Hy]. rewrite Hy. simpl.
+  destruct IH as [r Hr]; [intros; apply H; right; assumption|]. rewrite Hr. simpl. eauto.
+Qed.
+
+Lemma Forall2_flip {A B} (R : A -> B -> Prop) l1 l2 : Forall2 R l1 l2 -> Forall2 (fun y x => R x y) l2 l1.
+Proof. induction 1; constructor; assumption. Qed.
+
+(* same value under every (three-valued) assignment *)
+Definition eqv_all (c : circuit) (x' x : label) : Prop := forall a, eqv c a x' x.
+Lemma eqv_all_refl c x : eqv_all c x x.
+Proof. intros a; apply eqv_refl. Qed.
